@@ -11,7 +11,7 @@ Decides where found errors go, not which errors are found.
 from lib import shape, cfg
 from lib.facts import callee
 from lib.rulelib import get_fn, short
-from lib.threading import resolve
+from lib.accroot import resolve
 
 TC = "cedar_policy_core::validator::typecheck::"
 TYS = ("&mut std::vec::Vec<cedar_policy_core::validator::diagnostics::ValidationError>",
